@@ -30,6 +30,7 @@ type Tape struct {
 	RunSeed       uint64        `json:"run_seed"`
 	Conf          gk.ConfModel  `json:"conf"`
 	Cred          string        `json:"cred"` // keytab | password
+	MergedKt      int           `json:"merged_keytab,omitempty"` // keytab: bits say which foreign and older entries the file also holds (gk.UserKeytabMerged)
 	AssumePreauth bool          `json:"assume_preauth,omitempty"`
 	Password      string        `json:"password,omitempty"`     // the user's password ("" = an ASCII one)
 	OneKeyOnly    bool          `json:"one_key_only,omitempty"` // the keytab user has a key for the first configured ticket etype only (an aes256-only account, say)
@@ -51,7 +52,7 @@ func Meta() core.Meta {
 		Engine: "c10", Property: "C10", Level: "exploration",
 		Rule:        "case = one run: a real client configured from a generated krb5.conf (etype lists, forwardable/proxiable/canonicalize, renew_lifetime, ticket_lifetime, noaddresses, transport) with a keytab or password credential or a credential cache written by the reference implementation performs 3-30 operations (login, service-ticket requests for repeated and new SPNs in its own and in foreign realms, waits that land before/at/after ticket and TGT end times, renewal points and renew-till, destroy) against reference KDCs with a drawn policy (pre-authentication and hint layout, salts and iteration counts, maximum lives, optional starttime, address copying) and referral chains of length 0-8 or a cycle; distinct = distinct (configuration class, policy class, operation/outcome sequence); non-trivial = at least one ticket request after a wait, a renewal, a referral or a pre-authentication round trip",
 		SeededQuick: 2500, SeededThorough: 150000,
-		WorkloadProbes: []string{"served-from-cache", "requested-afresh-after-expiry", "tgt-renewed-by-library", "relogin-after-tgt-expiry", "referral-chain-3plus", "referral-cycle", "preauth-with-nondefault-salt", "renewable-requested", "wait-lands-within-1s-of-end", "destroy-then-use", "credential-cache-client", "password-outside-ascii", "etype-lists-separated-by-commas-or-tabs", "operation-during-outage", "operation-after-outage", "tgt-ended-during-outage", "renewal-point-passed-during-outage"},
+		WorkloadProbes: []string{"served-from-cache", "requested-afresh-after-expiry", "tgt-renewed-by-library", "relogin-after-tgt-expiry", "referral-chain-3plus", "referral-cycle", "preauth-with-nondefault-salt", "renewable-requested", "wait-lands-within-1s-of-end", "destroy-then-use", "credential-cache-client", "password-outside-ascii", "etype-lists-separated-by-commas-or-tabs", "keytab-shared-with-other-principals-or-older-keys", "operation-during-outage", "operation-after-outage", "tgt-ended-during-outage", "renewal-point-passed-during-outage"},
 		Components: map[string]string{
 			"client.Login/AffirmLogin/GetServiceTicket/GetCachedTicket/Destroy, session auto-renewal goroutines, ticket cache, NewASReq/NewTGSReq/setPAData, network code, krb5.conf parser, keytab parser": "real",
 			"sync in client/session.go, client/cache.go": "shim (seeded yields at every lock boundary)",
@@ -142,6 +143,10 @@ func Gen(caseID, tier string) (json.RawMessage, error) {
 		// what the client has to use is what it negotiated with the KDC
 		tp.OneKeyOnly = true
 		tp.PreauthPref = r.PickInt(17, 18, 23, 16, 19, 20)
+	}
+	if tp.Cred == "keytab" && r.Chance(1, 3) {
+		// the keytab file is shared: other principals' entries and the user's older keys stand next to the user's
+		tp.MergedKt = r.Range(1, 31)
 	}
 	tp.DisableFAST = r.Chance(1, 3)
 	p := &tp.Policy
